@@ -174,28 +174,34 @@ def replay_reaction(arg):
     case, pool = arg
     from chempy import Substance, Reaction, Equilibrium
     from collections import OrderedDict
-    substances = OrderedDict((k, Substance.from_formula(k)) for k in pool)
     cls = Reaction if case["in"]["kind"] == "Reaction" else Equilibrium
+
     def _coef(c):
         return c[0] if c[1] == 1 else c[0] / c[1]
-    reac = OrderedDict((pool[s - 1], _coef(c)) for s, c in case["in"]["reac"])
-    prod = OrderedDict((pool[s - 1], _coef(c)) for s, c in case["in"]["prod"])
-    try:
-        r = cls(reac, prod, checks=())
-    except TypeError:
-        r = cls(reac, prod)
     want = case["exp"]["shown"]
     bad = []
-    for fmt, attr in (("string", None), ("latex", "latex_name"), ("unicode", "unicode_name"), ("html", "html_name")):
-        if fmt == "string":
-            s = r.string()
-            names = {k: i + 1 for i, k in enumerate(pool)}
-        else:
-            s = getattr(r, fmt)(substances)
-            names = {getattr(substances[k], attr): i + 1 for i, k in enumerate(pool)}
-        toks = _lex_reaction(s, fmt, names, ["Reaction", "Equilibrium"])
-        if toks != want:
-            bad.append((cls.__name__ + "." + fmt, {"string": s, "tokens": toks}, want))
+    # the species keys are the formulas themselves, or aliases that differ from every substance name
+    for variant, keys in (("", list(pool)), ("[alias keys]", ["sp%d_" % (i + 1) for i in range(len(pool))])):
+        substances = OrderedDict((k, Substance.from_formula(f)) for k, f in zip(keys, pool))
+        reac = OrderedDict((keys[s - 1], _coef(c)) for s, c in case["in"]["reac"])
+        prod = OrderedDict((keys[s - 1], _coef(c)) for s, c in case["in"]["prod"])
+        try:
+            r = cls(reac, prod, checks=())
+        except TypeError:
+            r = cls(reac, prod)
+        for fmt, attr in (("string", None), ("latex", "latex_name"), ("unicode", "unicode_name"), ("html", "html_name")):
+            try:
+                if fmt == "string":
+                    s = r.string()
+                    names = {k: i + 1 for i, k in enumerate(keys)}
+                else:
+                    s = getattr(r, fmt)(substances)
+                    names = {getattr(substances[k], attr): i + 1 for i, k in enumerate(keys)}
+                toks = _lex_reaction(s, fmt, names, ["Reaction", "Equilibrium"])
+            except Exception as ex:
+                s, toks = type(ex).__name__, None
+            if toks != want:
+                bad.append((cls.__name__ + "." + fmt + variant, {"string": s, "tokens": toks}, want))
     return bad
 
 
